@@ -12,5 +12,6 @@ func rulesC08(c *Ctx, r *Report) {
 	rulesTraceFollowsFill(c, r)
 	rulesLocalClamp(c, r)
 	rulesTraceStop(c, r)
+	rulesStepsReversed(c, r)
 	rulesPureAlign(c, r)
 }
